@@ -322,11 +322,14 @@ func c04XPaths(kind string) []c04XPath {
 		preds = []string{"", "[.='1']", "[@k='1']", "[b]", "[b='2']", "[text()='1']", "[not(b)]", "[count(*)=2]", "[count(*)=0]", "[.='']",
 			"['x]'!='']", `[.!="'"]`, `[.='1' and .!="'"]`, "[not(@k)]", "[b/@k='1']", "[.//b='1']",
 			// several predicates on the final step (all about the candidate itself)
-			"[@k='1'][b]", "[@k='1'][.='1']", "[not(@k)][b='2']", "[@k='1'][not(b)]", "[@k][@k='1'][count(*)=0]", "[b][@k='1']", "[b][b='2']", "[.='1'][not(@k)]"}
+			"[@k='1'][b]", "[@k='1'][.='1']", "[not(@k)][b='2']", "[@k='1'][not(b)]", "[@k][@k='1'][count(*)=0]", "[b][@k='1']", "[b][b='2']", "[.='1'][not(@k)]",
+			// spelling variants of the same class: white space, nested brackets, double-quoted bracket literal
+			"[.='1'] ", "[ .='1' ]", "[b[.='2']]", `[b="2" or .="]"]`, "[b] [b='2']", "[self::b]", "[self::a][b]"}
 	} else {
 		paths = []string{"/a", "/a/b", "/*/b", "//b", "/a//b", "/a/*", "//*", "/*", "/*/*"}
 		preds = []string{"", "[.='1']", "[b]", "[b='1']", "[not(b)]", "[count(*)=2]", "[count(*)=0]", "[.='']", "['x]'!='']", `[.!="'"]`, `[.='1' and .!="'"]`, "[a='true']", "[.//b='1']",
-			"[b][a]", "[b][b='1']", "[not(b)][.='1']", "[count(*)=2][a='true']"}
+			"[b][a]", "[b][b='1']", "[not(b)][.='1']", "[count(*)=2][a='true']",
+			"[.='1'] ", "[ .='1' ]", "[b[.='1']]", `[b="1" or .="]"]`, "[b] [b='1']"}
 	}
 	var out []c04XPath
 	for _, p := range paths {
@@ -337,11 +340,28 @@ func c04XPaths(kind string) []c04XPath {
 	return out
 }
 
+// c04BasePredCount is the number of leading predicates of each alphabet that are run on every document
+// plan; the later ones (several filters on one step, spelling variants) are run on documents up to
+// c04ExtMaxN nodes (quick 3, thorough 4) - they exercise the splitting of the xpath, not new tree shapes.
+func c04SplitXPaths(kind string) (base, ext []c04XPath) {
+	nb := map[string]int{"xml": 16, "json": 13}[kind]
+	all := c04XPaths(kind)
+	per := len(all) / map[string]int{"xml": 8, "json": 9}[kind]
+	for i, x := range all {
+		if i%per < nb {
+			base = append(base, x)
+		} else {
+			ext = append(ext, x)
+		}
+	}
+	return
+}
+
 func init() {
 	core.Register(&core.Prop{
 		ID:    "C04",
 		Level: "exploration",
-		Rule:  "every XML document with up to N elements (all tree shapes to depth 4, names {a,b}, optional attribute k, text before/after the children; once with a unique id attribute per element for exact node identity and once without) and every JSON value with up to N value nodes (scalars, arrays, objects over keys {a,b}, any nesting) x every target xpath = path in {/a,/a/b,/*/b,//b,/a//b,/a/*,//*,..} + final-step predicate on the candidate's own value/attribute/text/children/descendants (incl. literals containing brackets and the other quote character); the stream reader's delivered nodes (serialised at delivery time) must equal, in order, the outermost nodes selected on the fully loaded document that satisfy the full xpath; a case is distinct by (document, xpath), outcome class = (xpath, number of records)",
+		Rule:  "every XML document with up to N elements (all tree shapes to depth 4, names {a,b}, optional attribute k, text before/after the children; once with a unique id attribute per element for exact node identity and once without) and every JSON value with up to N value nodes (scalars, arrays, objects over keys {a,b}, any nesting) x every target xpath = path in {/a,/a/b,/*/b,//b,/a//b,/a/*,//*,..} + final-step predicate on the candidate's own value/attribute/text/children/descendants (incl. literals containing brackets and the other quote character), and - on documents up to 3 (thorough 4) nodes - several filters on the final step and spelling variants (white space, nested brackets, self axis); the stream reader's delivered nodes (serialised at delivery time) must equal, in order, the outermost nodes selected on the fully loaded document that satisfy the full xpath; a case is distinct by (document, xpath), outcome class = (xpath, number of records)",
 		Assumptions: []string{
 			"the whole-document tree is loaded by the same reader with target '.', so node construction itself is C08's subject, not C04's",
 			"xpaths are of the property's class: predicates only on the final step and only about the candidate itself",
@@ -385,9 +405,17 @@ func init() {
 				c.Count("documents", 1)
 				return !c.TimeUp()
 			}
-			xx := c04XPaths("xml")
+			extMaxN := 3
+			if !c.Quick() {
+				extMaxN = 4
+			}
+			xbase, xext := c04SplitXPaths("xml")
 			for _, pl := range xplans {
 				stop := false
+				xx := xbase
+				if pl.n <= extMaxN {
+					xx = append(append([]c04XPath{}, xbase...), xext...)
+				}
 				c04XMLDocs(pl.n, 4, pl.al, pl.ids, func(doc string) bool {
 					if !run("xml", doc, xx) {
 						stop = true
@@ -399,9 +427,13 @@ func init() {
 					return
 				}
 			}
-			jx := c04XPaths("json")
+			jbase, jext := c04SplitXPaths("json")
 			for n := 1; n <= jmax; n++ {
 				stop := false
+				jx := jbase
+				if n <= extMaxN {
+					jx = append(append([]c04XPath{}, jbase...), jext...)
+				}
 				c04JSONDocs(n, []string{"1", `"1"`, "true", "null"}, []string{"a", "b"}, func(doc string) bool {
 					if !run("json", doc, jx) {
 						stop = true
